@@ -112,13 +112,15 @@ func newEnv(ctx context.Context, variant, prior, tmp string) (*env, error) {
 			return nil, err
 		}
 	}
-	sub, err := n.DB.Events().Subscribe(event.UpdateName)
+	sub, err := n.DB.Events().Subscribe(event.UpdateName, markerName)
 	if err != nil {
 		return nil, err
 	}
 	go func() {
 		for m := range sub.Message() {
-			if u, ok := m.Data.(event.Update); ok {
+			if m.Name == markerName {
+				e.evs <- event.Update{DocID: "\x00marker"}
+			} else if u, ok := m.Data.(event.Update); ok {
 				e.evs <- u
 			}
 		}
@@ -126,20 +128,24 @@ func newEnv(ctx context.Context, variant, prior, tmp string) (*env, error) {
 	return e, nil
 }
 
+const markerName = event.Name("verif-marker")
+
+// drainEvents counts the update notifications received so far; exact thanks to an in-order marker.
 func (e *env) drainEvents() int {
+	e.n.DB.Events().Publish(event.NewMessage(markerName, nil))
 	c := 0
-	quiet := 0
-	for quiet < 4 {
+	deadline := time.After(10 * time.Second)
+	for {
 		select {
-		case <-e.evs:
+		case u := <-e.evs:
+			if u.DocID == "\x00marker" {
+				return c
+			}
 			c++
-			quiet = 0
-		default:
-			quiet++
-			time.Sleep(400 * time.Microsecond)
+		case <-deadline:
+			return -1000
 		}
 	}
-	return c
 }
 
 func (e *env) close() { e.n.Close() }
